@@ -615,7 +615,9 @@ func (s *Sim) advanceClock() bool {
 		if t.state == stWaiting && t.req.kind == opSleep {
 			consider(t.wakeAt)
 		}
-		if t.state == stWaiting && t.req.kind == opRead && t.wakeAt > 0 {
+		if t.state == stWaiting && t.req.kind == opRead && t.wakeAt > s.now {
+			// (a poll time that has passed without making the read ready - the period of EOF reads ended while it
+			// was parked - is no reason to wake up)
 			consider(t.wakeAt)
 		}
 		if t.state == stWaiting && t.req.kind == opRead && t.req.conn.rdlSet {
